@@ -1059,8 +1059,35 @@ fn composite(ctx: &mut Ctx, rng: &mut Rng, v4s: &[IpCase], v6s: &[IpCase]) {
         let am = fl_as.model(&asq.blocks);
         let v4 = &v4s[rng.usize_below(v4s.len())];
         let v6 = &v6s[rng.usize_below(v6s.len())];
-        let set = ResourceSet::new(as_from_model(&am), Ipv4Blocks::from(v4.set.clone()), Ipv6Blocks::from(v6.set.clone()));
-        (set, am, v4.model.clone(), v6.model.clone())
+        // every combination of empty / non-empty parts must be common
+        let (am, a_set) = if rng.chance(1, 4) { (IntervalSet::default(), as_from_model(&IntervalSet::default())) } else { let s = as_from_model(&am); (am, s) };
+        let (m4, s4) = if rng.chance(1, 4) { (IntervalSet::default(), IpBlocks::empty()) } else { (v4.model.clone(), v4.set.clone()) };
+        let (m6, s6) = if rng.chance(1, 4) { (IntervalSet::default(), IpBlocks::empty()) } else { (v6.model.clone(), v6.set.clone()) };
+        let set = match rng.below(3) {
+            0 => ResourceSet::new(a_set, Ipv4Blocks::from(s4), Ipv6Blocks::from(s6)),
+            1 => {
+                // the setters, starting from the other constructors
+                let mut r = if rng.bool() { ResourceSet::empty() } else { ResourceSet::all() };
+                let mut order = [0u8, 1, 2];
+                rng.shuffle(&mut order);
+                for o in order {
+                    match o {
+                        0 => r.set_asn(a_set.clone()),
+                        1 => r.set_ipv4(Ipv4Blocks::from(s4.clone())),
+                        _ => r.set_ipv6(Ipv6Blocks::from(s6.clone())),
+                    }
+                }
+                r
+            }
+            _ => {
+                let mut r = ResourceSet::default();
+                r.set_ipv6(Ipv6Blocks::from(s6));
+                r.set_asn(a_set);
+                r.set_ipv4(Ipv4Blocks::from(s4));
+                r
+            }
+        };
+        (set, am, m4, m6)
     };
     let (r1, a1, f1, s1) = mk(rng);
     let (r2, a2, f2, s2) = mk(rng);
@@ -1071,6 +1098,59 @@ fn composite(ctx: &mut Ctx, rng: &mut Rng, v4s: &[IpCase], v6s: &[IpCase]) {
         check_set(ctx, Flavour::V6, &format!("resourceset-{}", op), &observe_ip(r.ipv6()), m6, || json!({"op": op, "r1": r1.to_string(), "r2": r2.to_string()}));
     };
     ctx.sig(&format!("resourceset ops as:{} v4:{} v6:{}", relation(&a1, &a2), relation(&f1, &f2), relation(&s1, &s2)));
+    // every view of the three parts says the same as the parts that were put in
+    for (r, ma, m4, m6) in [(&r1, &a1, &f1, &s1), (&r2, &a2, &f2, &s2)] {
+        let dd = || json!({"set": r.to_string(), "asn": blocks_json(&ma.iv), "ipv4": blocks_json(&m4.iv), "ipv6": blocks_json(&m6.iv)});
+        ctx.sig(&format!("resourceset views empty-parts as:{} v4:{} v6:{}", ma.iv.is_empty(), m4.iv.is_empty(), m6.iv.is_empty()));
+        comp(ctx, "parts", r, ma, m4, m6);
+        if let Some(g) = ctx.no_panic("resourceset:is_empty", dd, || r.is_empty()) {
+            check_bool(ctx, Flavour::As, "resourceset-is_empty", g, ma.iv.is_empty() && m4.iv.is_empty() && m6.iv.is_empty(), dd);
+        }
+        // the `_opt` views: None exactly for an empty part, otherwise that part
+        if let Some(o) = ctx.no_panic("resourceset:asn_opt", dd, || r.asn_opt().cloned()) {
+            check_bool(ctx, Flavour::As, "resourceset-asn_opt-none-iff-empty", o.is_none(), ma.iv.is_empty(), dd);
+            if let Some(b) = o {
+                check_set(ctx, Flavour::As, "resourceset-asn_opt", &crate::c03::observe_as(&b), ma, dd);
+            }
+        }
+        if let Some(o) = ctx.no_panic("resourceset:ipv4_opt", dd, || r.ipv4_opt().cloned()) {
+            check_bool(ctx, Flavour::V4, "resourceset-ipv4_opt-none-iff-empty", o.is_none(), m4.iv.is_empty(), dd);
+            if let Some(b) = o {
+                check_set(ctx, Flavour::V4, "resourceset-ipv4_opt", &observe_ip(&b), m4, dd);
+            }
+        }
+        if let Some(o) = ctx.no_panic("resourceset:ipv6_opt", dd, || r.ipv6_opt().cloned()) {
+            check_bool(ctx, Flavour::V6, "resourceset-ipv6_opt-none-iff-empty", o.is_none(), m6.iv.is_empty(), dd);
+            if let Some(b) = o {
+                check_set(ctx, Flavour::V6, "resourceset-ipv6_opt", &observe_ip(&b), m6, dd);
+            }
+        }
+        // the certificate-extension views
+        if let Some(x) = ctx.no_panic("resourceset:to_as_resources", dd, || r.to_as_resources()) {
+            match x.to_blocks() {
+                Ok(b) => {
+                    check_set(ctx, Flavour::As, "resourceset-to_as_resources", &crate::c03::observe_as(&b), ma, dd);
+                }
+                Err(_) => check_bool(ctx, Flavour::As, "resourceset-to_as_resources-not-inherit", false, true, dd),
+            }
+        }
+        if let Some(x) = ctx.no_panic("resourceset:to_ip_resources_v4", dd, || r.to_ip_resources_v4()) {
+            match x.to_blocks() {
+                Ok(b) => {
+                    check_set(ctx, Flavour::V4, "resourceset-to_ip_resources_v4", &observe_ip(&b), m4, dd);
+                }
+                Err(_) => check_bool(ctx, Flavour::V4, "resourceset-to_ip_resources_v4-not-inherit", false, true, dd),
+            }
+        }
+        if let Some(x) = ctx.no_panic("resourceset:to_ip_resources_v6", dd, || r.to_ip_resources_v6()) {
+            match x.to_blocks() {
+                Ok(b) => {
+                    check_set(ctx, Flavour::V6, "resourceset-to_ip_resources_v6", &observe_ip(&b), m6, dd);
+                }
+                Err(_) => check_bool(ctx, Flavour::V6, "resourceset-to_ip_resources_v6-not-inherit", false, true, dd),
+            }
+        }
+    }
     if let Some(u) = ctx.no_panic("resourceset:union", d, || r1.union(&r2)) {
         comp(ctx, "union", &u, &a1.union(&a2), &f1.union(&f2), &s1.union(&s2));
     }
